@@ -16,12 +16,12 @@ package log
 //@   ensures result0 == lfile(dir, prevIndex)
 
 //@ func connect
-//@   props C02 C03 C04
+//@   props C02 C03 C04 C13 C14
 //@   modifies s1.next, s2.prev
 //@   ensures s1.next == s2 && s2.prev == s1
 
 //@ func disconnect
-//@   props C02 C03 C04
+//@   props C02 C03 C04 C13 C14
 //@   modifies s1.next, s2.prev
 //@   ensures s1.next == nil && s2.prev == nil
 
@@ -47,7 +47,7 @@ package log
 //@ axiom [T-std.segment-names] forall(d, i, j, lfile(d, i) == lfile(d, j) ==> i == j)
 
 //@ func (*Log).Commit
-//@   props C06 C10
+//@   props C06 C10 C13 C14
 //@   requires LogShape(l) && l.index == nil
 //@   modifies segment.synced, elems(uint8), mmap.File.gdur
 //@   ensures [C14.commit-keeps-shape] LogShape(l) && l.first == old(l.first) && l.last == old(l.last)
@@ -57,7 +57,7 @@ package log
 // Append: the entry becomes the last one, nothing else moves; a full segment is committed before the
 // next one is linked, so at most the last segment is ever dirty.
 //@ func (*Log).Append
-//@   props C02 C03 C04 C06 C10
+//@   props C02 C03 C04 C06 C10 C13 C14
 //@   requires LogShape(l) && l.index == nil
 //@   requires LogLast(l) < 18446744073709551614 && len(b) <= 1099511627776 && l.opt.SegmentSize >= 1024
 //@   requires forall(x, l.gin[x] ==> arrof(b) != SArr(x))
@@ -82,7 +82,7 @@ package log
 //@   ensures true
 
 //@ func (*segment).close
-//@   props C06 C10
+//@   props C06 C10 C13 C14
 //@   requires SegGood(s)
 //@   modifies s.synced, contents(s.file.Data), s.file.gdur
 //@   ensures [C14.close-syncs] result0 == nil ==> s.synced == s.n && hdrDur(s) == s.n
@@ -91,6 +91,7 @@ package log
 //@   crash_inv [C14.close-crash-ok] CrashOK0(s)
 
 //@ func (*segment).remove
+//@   props C13 C14
 //@   requires s.file != nil
 //@   modifies fs
 //@   ensures result0 == nil ==> !fs[s.file.name]
@@ -98,7 +99,7 @@ package log
 //@   ensures forall(p, p != s.file.name ==> fs[p] == old(fs[p]))
 
 //@ func (*segment).closeAndRemove
-//@   props C06 C10
+//@   props C06 C10 C13 C14
 //@   requires SegGood(s)
 //@   modifies s.synced, contents(s.file.Data), s.file.gdur, fs
 //@   ensures [C13.remove-file] result0 == nil ==> !fs[s.file.name]
@@ -109,7 +110,7 @@ package log
 // RemoveLTE: whole segments below the bound go away, from the front; nothing else moves (C09, C13)
 //@ pure SegSame(x *segment) bool = x.n == old(x.n) && x.prevIndex == old(x.prevIndex) && x.size == old(x.size) && x.file == old(x.file) && x.next == old(x.next)
 //@ func (*Log).RemoveLTE
-//@   props C02 C03 C04 C06 C10
+//@   props C02 C03 C04 C06 C10 C13 C14
 //@   requires LogShape(l) && l.index == nil
 //@   modifies l.first, l.gin, segment.synced, segment.next, segment.prev, elems(uint8), mmap.File.gdur, fs
 //@   ensures [C13.remove-lte-shape] LogShape(l) && l.last == old(l.last) && LogLast(l) == old(LogLast(l))
@@ -125,7 +126,7 @@ package log
 //@ pure TailOK(l *Log, x *segment) bool = SegGood(x) && (x.next != nil ==> l.gin[ref(x.next)] && x.next.gord == x.gord + 1) && (x.next == nil ==> x == l.last) && x.gord <= l.last.gord
 //@ pure SOrd(x *segment) int = x.gord
 //@ func (*Log).Reset
-//@   props C02 C03 C04 C09 C10
+//@   props C02 C03 C04 C09 C10 C13 C14
 //@   requires LogShape(l) && l.index == nil
 //@   requires [C14.no-stale-segment] NoStale(l)
 //@   requires lastIndex < 18446744073709551614
@@ -139,7 +140,7 @@ package log
 
 // CanLTE: the compaction point RemoveLTE(i) can reach: a segment boundary, never beyond i (C09)
 //@ func (*Log).CanLTE
-//@   props C09
+//@   props C09 C13 C14
 //@   requires LogShape(l) && l.index == nil
 //@   ensures [C09+C13.can-lte-bound] result0 >= LogPrev(l) && (result0 > LogPrev(l) ==> result0 <= i)
 //@   ensures [C09+C13.can-lte-boundary] exists(x, l.gin[x] && SP(x) == result0)
@@ -147,7 +148,7 @@ package log
 
 // Close: everything is committed before the files are unmapped (C14, C10)
 //@ func (*Log).Close
-//@   props C06 C10
+//@   props C06 C10 C13 C14
 //@   requires LogShape(l) && l.index == nil
 //@   modifies segment.synced, elems(uint8), mmap.File.gdur
 //@   ensures [C14+C10.close-commits] result0 == nil ==> forall(x, l.gin[x] && SN(x) > 0 ==> SSy(x) == SN(x))
@@ -196,7 +197,7 @@ package log
 
 // Open: what Append / Reset / RemoveLTE require of a log object holds for a freshly opened one (C14, C10)
 //@ func Open
-//@   props C10 C13 C06
+//@   props C10 C13 C06 C14
 //@   modifies fs, gopen, gopenIdx, segment.next, segment.prev, segment.gord, segment.synced, elems(uint8), mmap.File.gdur
 //@   ensures result1 != nil ==> result0 == nil
 //@   ensures [C14+C10.open-shape] result1 == nil ==> result0 != nil && isfresh(result0) && LogShape(result0) && result0.index == nil && result0.dir == dir
@@ -210,7 +211,7 @@ package log
 // Everything is committed first, so a truncated header never exposes unsynced bytes (C14.remove-after-commit).
 //@ pure RGLast(old uint64, i uint64) uint64 = ite(i > old, old, ite(i == 0, 0, i - 1))
 //@ func (*Log).RemoveGTE params(l, i0)
-//@   props C02 C03 C04 C06 C10
+//@   props C02 C03 C04 C06 C10 C13 C14
 //@   requires LogShape(l) && l.index == nil
 //@   requires [C14.no-stale-segment] NoStale(l)
 //@   modifies l.first, l.last, l.gin, segment.n, segment.size, segment.synced, segment.next, segment.prev, elems(uint8), mmap.File.gdur, fs
@@ -244,7 +245,7 @@ package log
 //@   ensures result0 != nil ==> fs == old(fs) && fdone == old(fdone)
 
 //@ func createSegment
-//@   props C10 C13
+//@   props C10 C13 C14
 //@   requires !fs[name]
 //@   modifies fs, fdone, fsize
 //@   ensures [C14.create-complete] result0 == nil ==> fs[name] && fdone[name]
